@@ -75,7 +75,30 @@ def run(ctx):
     sc.correspondence(ctx, recs, "cmp_shape", "c06")
     sc.resolve_check(ctx, recs, (), 40 if ctx.quick else 400, "c06")
     check(ctx, recs)
+    corridor(ctx)
     known_k1(ctx)
+
+
+def corridor(ctx):
+    """a long one-way corridor numbered along the way, every state paying reward 1: a stopping game in which the largest change
+    per sweep stays exactly 1 for more than a thousand sweeps before it drops to 0 - slow progress is not divergence"""
+    n = 1101
+    g = dict(players=[PR] * n, rewards=[1] * (n - 1) + [0], transition_list=[[(1, i + 1)] for i in range(n - 1)] + [[(1, n - 1)]],
+             final_states=[n - 1])
+    res = impl.run_cases([dict(op="solve", game=enc(g), prune=True, limit=120), dict(op="solve", game=enc(g), prune=False, limit=120)],
+                         limit=120, tag="c06c")
+    for prune, r in zip((True, False), res):
+        ctx.evaluations += 1
+        ctx.count("corridor of %d states" % n)
+        if "timeout" in r:
+            continue
+        inp = dict(game=enc(g), game_repr="corridor of %d states, reward 1 each" % n, prune=prune, op="solve")
+        if "ok" not in r:
+            ctx.violation("a %d-state corridor (a stopping game) is neither solved nor declared unsolvable: %s: %s"
+                          % (n, r.get("exc"), r.get("msg")), inp)
+        elif dec(r["ok"])[2][0] != n - 1 or dec(r["ok"])[3][0] != 1:
+            ctx.violation("a %d-state corridor: initial state reports reward %r and probability %r, expected %d and 1"
+                          % (n, dec(r["ok"])[2][0], dec(r["ok"])[3][0], n - 1), inp)
 
 
 deep_search = run
